@@ -305,6 +305,7 @@ func runC16(e *Engine, r *Report) {
 	// deferred close/sync errors reach the caller (generic.go)
 	ruleDeferredErr(e, r, 2, "internal/server", "internal/fileutil", "internal/rsm", "")
 	ruleChunkFileSync(e, r)
+	ruleSnapshotWriterClose(e, r)
 }
 
 // dependsOnGuard: some branch condition on the way to `in` depends on a pred value.
